@@ -125,8 +125,12 @@ def run_one(ch, cfg):
         dcfg["post_exit_ui"] = {"mode": pe, "delay": 30.0 if c["post_exit"] == "gone" else
                                 ch.pick([0.2, 0.0, 0.9], "boot-delay"),
                                 "silence": ch.pick(["timeout", "read_err"], "exit-silence")}
+    # the device may also be absent (unplugged / enclave host down) when the manager starts
+    c["present"] = ch.draw(12, "device-absent") != 1
     w = ProcWorld(ch, platform=plat, device_cfg=dcfg)
     dev = w.device
+    if not c["present"]:
+        dev.plugged = False
     if c["pin_file"] in ("valid", "forced"):
         w.fs.put(PIN_PATH, devpin + (b"\n" if ch.draw(2, "pin.newline") else b""))
     elif c["pin_file"] == "invalid":
@@ -203,6 +207,8 @@ def _cs(c):
 
 
 def _why_not(c):
+    if not c.get("present", True):
+        return "absent"
     if c["platform"] == "tcp":
         return "tcp"
     if c["pin_file"] == "invalid":
@@ -221,6 +227,8 @@ def _why_not(c):
 
 
 def _why_not_serve(c):
+    if not c.get("present", True):
+        return "absent"
     if c["onboarded"] != "yes":
         return "not-onboarded"
     if c["mode"] == "bootloader":
